@@ -92,6 +92,11 @@ CHECKS = {
             "Exhaustive over the abstract pool states; sampled prefixes/suffixes over the full alphabet and timeouts {0, 1 ns, 1 ms, 10 s, MAX}.",
             "Equality is the scanners' derived PartialEq.",
             "DESIGN.md 4/C17"),
+    "C19": (True,
+            "exhaustive enumeration of every u16/u8/i8/i16 through serde's typed primitive deserializers and JSON for the six integer types, of every u8 for ShortMessageType, of boundary-abstracted field combinations (17 values per field, all variants, seq/map/missing/extra forms) for the composite types; proptest random value trees shaped like each type; oracle = validity predicate (value equals what the checked constructors build from its own accessors) + round trip of valid values",
+            "Exhaustive over the integer domains and the abstracted composite domains; random trees sampled; configuration features std + serde + serde_repr.",
+            "Generic deserializer = serde_json::Value and JSON text (self-describing); typed visits only through serde's primitive value deserializers.",
+            "DESIGN.md 4/C19"),
 }
 
 ALL = ["C%02d" % i for i in range(1, 20)]
